@@ -209,6 +209,11 @@ def check(ctx):
     ct.padding_rules(ctx, R8)
     from .c15 import thumbprint_members
     thumbprint_members(ctx, R8)
+    # ... and its members are serialised in lexicographic order: serde_json's map is a BTreeMap unless the `preserve_order` feature
+    # is enabled anywhere in the build (feature unification) — then RSA thumbprints come out as kty,e,n (shared with C15.K6)
+    from .c15 import serde_json_features
+    feats = serde_json_features(ctx.repo)
+    ctx.require(R8, feats is not None and "preserve_order" not in feats, "Cargo.lock / cargo metadata", "serde_json features = %s (no preserve_order)" % (feats,), ["serde_json", "preserve_order"])
     wildcard(ctx)
     reverse_dns(ctx)
     cleanup(ctx)
